@@ -3,7 +3,8 @@ their behaviours replayed on the real gemmill/p2p code by harness/cmd/p2p:
   SecretConn  every edge of the small state graph (all handshake strategies of the man in the middle, all write /
               read / tampering transitions) plus simulated behaviours of the large configuration, between two real
               SecretConnection endpoints with a frame-aware man in the middle; raw Reads compared step by step, then
-              the same scenario consumed with io.ReadFull against an oracle that knows only the written stream;
+              the same scenario consumed with io.ReadFull against an oracle that knows only the written stream; the
+              carrier under both ends fragments (at most k bytes per Read) in handshake and data phase;
   MConn       simulated behaviours give the workloads (channel, exact size, Send/TrySend) run concurrently on a real
               MConnection pair (plain with a packet tap, over real SecretConnections, and with one sealed frame
               flipped / dropped / duplicated); the spec's invariants are evaluated on what really arrived;
@@ -27,6 +28,8 @@ ONLY = (os.environ.get('VERIF_C20_ONLY') or '').lower()
 SPECNAME = {'secretconn': 'SecretConn', 'mconn': 'MConn', 'admission': 'Admission'}
 
 MC_CAP = {'1': 4096, '2': 3000}
+# carrier fragmentation classes: most bytes one Read of the connection under a SecretConnection returns (0 = everything pending)
+SEGS = [1, 7, 700, 1041, 1043, 0]
 ADM_KEYS = {'q': ['N', 'C', 'V', 'P'], 't': ['N', 'C', 'V', 'P', 'Q']}
 
 
@@ -272,7 +275,7 @@ def run(ctx, replay=None):
                  ('SecretConn/t', 'MC_SecretConn.tla', 'MC_SecretConn_t.cfg', dict(timeout=3000)),
                  ('MConn/t', 'MC_MConn.tla', 'MC_MConn_t.cfg', dict(timeout=3000)),
                  ('Admission/t', 'MC_Admission.tla', 'MC_Admission_t.cfg', dict(timeout=3000))]
-    jobs += [('SecretConn/sim', 'MC_SecretConn.tla', 'MC_SecretConn_sim.cfg', dict(sim=(120 if quick else 800, 30 if quick else 45), timeout=1800)),
+    jobs += [('SecretConn/sim', 'MC_SecretConn.tla', 'MC_SecretConn_sim.cfg', dict(sim=(120 if quick else 800, 36 if quick else 54), timeout=1800)),
              ('MConn/sim', 'MC_MConn.tla', 'MC_MConn_q.cfg' if quick else 'MC_MConn_t.cfg', dict(sim=(700 if quick else 3000, 40), timeout=1800))]
     if not quick:
         jobs.append(('Admission/sim', 'MC_Admission.tla', 'MC_Admission_t.cfg', dict(sim=(150, 160), timeout=1800)))
@@ -285,7 +288,7 @@ def run(ctx, replay=None):
     sc, mc, adm = [], [], []
     r = res.get('SecretConn/q')
     if r and r.scratch and r.ok:
-        sc, _ = graph_traces(ctx, r, 'q', 'secretconn', {}, max_len=40)
+        sc, _ = graph_traces(ctx, r, 'q', 'secretconn', {}, max_len=60)
     tlc.cleanup(r)
     sims = res.get('SecretConn/sim', (None, []))[1]
     for k, t in enumerate(sims):
@@ -294,6 +297,7 @@ def run(ctx, replay=None):
         sc.append(t)
     for k, t in enumerate(sc):
         t['cfg']['seed'] = seed * 100003 + k
+        t['cfg']['seg0'] = SEGS[(seed * 7 + k) % len(SEGS)]
         sc_derive(t)
     ctx.log('secretconn behaviours ready: %d' % len(sc))
 
@@ -326,7 +330,7 @@ def run(ctx, replay=None):
     tampers = ['flip', 'drop', 'dup']
     for k, t in enumerate(mc):
         mode = k % 5
-        t['cfg'] = {'kind': 'mconn', 'Cap': MC_CAP, 'seed': seed * 100003 + k,
+        t['cfg'] = {'kind': 'mconn', 'Cap': MC_CAP, 'seed': seed * 100003 + k, 'seg': SEGS[(seed + k) % len(SEGS)],
                     'wrap': 'plain' if mode in (0, 1, 2) else 'secret'}
         if mode == 4:
             t['cfg']['tamper'] = {'op': tampers[(k // 5) % 3], 'frame': (k // 15) % 3}
@@ -412,8 +416,10 @@ def run(ctx, replay=None):
     ctx.assumptions += [
         'cryptography is symbolic in the specification: curve25519 / secretbox / ed25519 / sha256 / ripemd160 are assumed '
         'unforgeable and collision free; the replay uses the real primitives',
-        'the wire under a SecretConnection delivers what the man in the middle forwards, in order (TCP); the man in the '
-        'middle acts on whole sealed frames, single bits of a frame, or cuts the stream',
+        'the wire under a SecretConnection delivers what the man in the middle forwards, in order (TCP), in pieces of '
+        'any size (carrier caps 1, 7, 700, 1041, 1043 bytes per Read or whole writes, from the behaviour and the seed, in '
+        'handshake and data phase); the man in the middle acts on whole sealed frames, single bits of a frame, or cuts '
+        'the stream',
         'SecretConnection.Read does not latch an error: ending the connection after a failed Read is the consumer\'s duty '
         '(MConnection does, checked with tampered frames under a real MConnection pair)',
         'onReceive must consume the message before returning (the slice is the channel\'s reassembly buffer)',
